@@ -1,7 +1,7 @@
 """PROV-JSON value level (C01, C10, C11): the typed-literal encoding {"$", "type" | "lang"} and its inverse."""
 
 
-@contract("prov.serializers.provjson.literal_json_representation", props=["C01", "C10"])
+@contract("prov.serializers.provjson.literal_json_representation", props=["C01", "C10", "C13"])
 def literal_json_representation(literal: "Lit") -> "JRep":
     pure()
     ensures("language-tagged", implies(literal.langtag is not None and literal.langtag != "",
@@ -30,7 +30,7 @@ def EncSpec(v: "Val") -> "JRep":
     return jobj(box(as_lit(v).value), some(qn_str(the(as_lit(v).datatype))), None)
 
 
-@contract("prov.serializers.provjson.encode_json_representation", props=["C01", "C10"])
+@contract("prov.serializers.provjson.encode_json_representation", props=["C01", "C10", "C13"])
 def encode_json_representation(value: "Val") -> "JRep":
     pure()
     requires("a-stored-value", not is_other(value) and not is_ref(value) and not is_none(value))
